@@ -540,7 +540,7 @@ def tight_far_pair(rng, la, lb):
     return shells, ["geom:tight-far"]
 
 
-def tight_near_pair(rng, la, lb):
+def tight_near_pair(rng, la, lb, boost=1.0):
     """Two tight shells (exponents in the top decade and a half of the published range) whose centres are about one width
     1/sqrt(alpha) apart (0.003 .. 0.1 bohr), coordinates with all their digits: there the integrals between them change by
     1e-8 for a displacement of 1e-10..1e-9 bohr, so centres that are rounded, snapped to a grid or stored in lower
@@ -549,11 +549,11 @@ def tight_near_pair(rng, la, lb):
     c0 = rng.normal(size=3) * 1.5
     amax = 0.0
     for l in (la, lb):
-        s = rand_shell(rng, l, center=c0, emin=cap(l) / 30.0, emax=cap(l), ecls=str(rng.choice(["edge-hi", "log"])), Kmax=2, Mmax=2)
+        s = rand_shell(rng, l, center=c0, emin=boost * cap(l) / 30.0, emax=boost * cap(l), ecls=str(rng.choice(["edge-hi", "log"])), Kmax=2, Mmax=2)
         s.pop("_cls")
         amax = max(amax, max(s["e"]))
         shells.append(s)
     u = rng.normal(size=3)
     u /= np.linalg.norm(u)
     shells[1]["c"] = [float(v) for v in c0 + u * float(rng.uniform(0.6, 1.6)) / np.sqrt(amax)]
-    return shells, ["geom:tight-near"]
+    return shells, ["geom:tight-near"] + (["exp:beyond-published-range(x%g)" % boost] if boost != 1.0 else [])
